@@ -538,7 +538,7 @@ def check_fft_key(chk, v):
     if na[0]["args"][0] != nin:
         problems.append("%s FFT rows allocated, the key has in_out_params->n" % sym.show(na[0]["args"][0]))
     cl = cv[0]["loops"][0]
-    if (cl["lo"], cl["cmp"], cl["hi"]) != (ZERO, "<", nin):
+    if not summ.visits(cl, ZERO, nin):
         problems.append("conversion loop covers [%s,%s), not [0, n)" % (sym.show(cl["lo"]), sym.show(cl["hi"])))
     if cv[0]["args"][0] != sym.addr(sym.idx(na[0]["eff"]["ret"], cl["var"])) or cv[0]["args"][1] != sym.addr(sym.idx(sym.arrow(bk, "bk"), cl["var"])):
         problems.append("conversion is %s <- %s, expected bkFFT[i] <- bk->bk[i]" % (sym.show(cv[0]["args"][0])[:50], sym.show(cv[0]["args"][1])[:50]))
